@@ -14,6 +14,7 @@ import (
 	"google.golang.org/grpc/status"
 	"google.golang.org/protobuf/proto"
 	"google.golang.org/protobuf/reflect/protoreflect"
+	"google.golang.org/protobuf/reflect/protoregistry"
 
 	"github.com/smart-core-os/sc-golang/pkg/middleware/name"
 	"github.com/smart-core-os/sc-golang/pkg/router"
@@ -530,6 +531,46 @@ func routeForwardRun(w *World) {
 		fillMessage(m.ProtoReflect(), p, 2)
 		setName(m, target)
 		reqSent = proto.Clone(m)
+	}
+	if defName != "" && t.Flag(1, 2) {
+		// the interceptor on its own, on a stream that carries several requests (the routed services have none of that
+		// shape today; the interceptor is not tied to them): every request with an empty name gets the default, every
+		// other one keeps its name
+		if d, derr := protoregistry.GlobalFiles.FindDescriptorByName(protoreflect.FullName(e.Desc.ServiceName)); derr == nil {
+			if mdsc := d.(protoreflect.ServiceDescriptor).Methods().ByName(protoreflect.Name(sd.StreamName)); mdsc != nil {
+				k := 2 + t.Choose(3)
+				var given, got []string
+				for i := 0; i < k; i++ {
+					given = append(given, []string{"", "n1", "elsewhere", ""}[t.Choose(4)])
+				}
+				ms := &fakeServerStream{ctx: ctx}
+				herr := name.IfAbsentStreamInterceptor(defName)(nil, ms, &grpc.StreamServerInfo{FullMethod: full, IsClientStream: true, IsServerStream: true}, func(_ any, st grpc.ServerStream) error {
+					for i := 0; i < k; i++ {
+						i := i
+						ms.gotReq, ms.nameHook = false, func(m proto.Message) { setName(m, given[i]) }
+						m := newMsg(mdsc.Input())
+						if err := st.RecvMsg(m); err != nil {
+							return err
+						}
+						got = append(got, getName(m))
+					}
+					return nil
+				})
+				for i := 0; i < k && herr == nil; i++ {
+					want := given[i]
+					if want == "" {
+						want = defName
+					}
+					if i >= len(got) || got[i] != want {
+						w.Violate("default-name", fmt.Sprintf("%s: stream interceptor with default %q: requests arrived with names %q, the handler received %q", desc, defName, given, got), key())
+						break
+					}
+				}
+				if herr != nil {
+					w.Violate("default-name", fmt.Sprintf("%s: stream interceptor: %v", desc, herr), key())
+				}
+			}
+		}
 	}
 	var stream grpc.ServerStream = ss
 	var err error
